@@ -366,6 +366,9 @@ def run(tier):
             irep = ('ok ' + hexs(out)) if st == 'ok' else f'err {out}'
             if rep != irep:
                 chk.disagree('fsingl-of-double', case, irep, rep)
+    # the two fixed-width ASCII fields of the FILE-HEADER, with values assigned after construction
+    from harness import eflr as _eflr
+    _eflr.late_header_stream(chk, model, bres, rng('C06', 'file-header-late'), 80 if tier == 'quick' else 800)
     # numbers of other types than int / float (numpy scalars, Fraction, Decimal) given to the numeric attributes: never
     # cut to fit an integer code; what is accepted decodes to the same number
     from harness.filegen import ATTRS
